@@ -23,7 +23,6 @@ type tok struct {
 	k     int
 	noNL  bool // no line terminator allowed before this token (restricted productions)
 	optSC bool // a ';' that automatic semicolon insertion may replace
-	sw    bool // the '{' that opens a switch body
 }
 
 type gctx struct {
@@ -280,7 +279,7 @@ func (g *gen) assign(d int, noIn bool, fns *[][]*stm) {
 	case d > 0 && g.r.Intn(8) == 0:
 		g.binary(d-1, noIn, fns)
 		g.p("?")
-		g.assign(d-1, noIn, fns) // ES5 allows `in` here even in a for-initialiser; kept out (probed separately)
+		g.assign(d-1, false, fns) // ES5 11.12: the middle operand admits `in` even inside a for-initialiser
 		g.p(":")
 		g.assign(d-1, noIn, fns)
 	default:
@@ -609,7 +608,7 @@ func (g *gen) stmt(c gctx, d int, bodyLevel bool) *stm {
 		g.p("(")
 		g.expr(min(d, 2), false, &fns)
 		g.p(")")
-		g.t = append(g.t, tok{s: "{", k: tkPunct, sw: true})
+		g.p("{")
 		sc := c.plain()
 		sc.inBrk = true
 		l := fnStms(fns)
@@ -741,8 +740,6 @@ func (g *gen) program(n, depth int) []*stm {
 	return g.stmts(gctx{}, depth, n, true)
 }
 
-var kwProp = map[string]bool{"if": true, "class": true, "default": true, "in": true, "new": true, "function": true}
-
 var stmtStart = map[string]bool{"var": true, "if": true, "for": true, "while": true, "do": true, "return": true, "break": true,
 	"continue": true, "switch": true, "try": true, "throw": true, "function": true, "with": true, "debugger": true}
 
@@ -751,9 +748,9 @@ func render(r *rand.Rand, ts []tok, fancy bool) string {
 	var b strings.Builder
 	needNL := false
 	for i, t := range ts {
-		// otto does not insert a semicolon after a keyword used as a property name (a.if) nor after a
-		// regular-expression literal (recorded C03-side defects): keep the explicit ';' there
-		asiSafe := !(i > 0 && ((ts[i-1].k == tkIdent && kwProp[ts[i-1].s]) || ts[i-1].k == tkRegex))
+		// otto takes an identifier after a regular-expression literal as its flags even across a line
+		// terminator (open finding C04-regexp-flags-detached): keep the explicit ';' there
+		asiSafe := !(i > 0 && ts[i-1].k == tkRegex)
 		if fancy && t.optSC && asiSafe && r.Intn(4) == 0 {
 			if i+1 == len(ts) || ts[i+1].s == "}" {
 				continue
@@ -767,10 +764,10 @@ func render(r *rand.Rand, ts []tok, fancy bool) string {
 		if i > 0 {
 			switch {
 			case needNL:
-				b.WriteString([]string{"\n", "\r\n", " // c\n", "\n\n  ", "\u2028", "\u2029"}[r.Intn(6)])
+				b.WriteString([]string{"\n", "\r\n", " // c\n", "\n\n  ", "\u2028", "\u2029", "\r", "\r  "}[r.Intn(8)])
 			case !fancy:
 				b.WriteByte(' ')
-			case t.noNL || t.s == ";":
+			case t.noNL:
 				b.WriteString([]string{" ", "  ", " /*c*/ ", "\t"}[r.Intn(4)])
 			default:
 				b.WriteString([]string{" ", " ", " ", " ", "\n", "  ", "\t", " /*c*/ ", " // x\n", "\r\n", " ", "\ufeff ", "\n/* a\n b */ "}[r.Intn(13)])
